@@ -47,7 +47,12 @@ func TestVerif_C06(t *testing.T) {
 		}
 		seen := map[string]bool{}
 		for _, f := range obs.Findings {
-			sig := f.Kind + ":" + k.Path + ":" + f.Actor
+			path := k.Path
+			if f.BySystemStop && f.Actor != "target" {
+				// a bystander stopped by the final system Stop: name the path that stopped it
+				path = "system-stop"
+			}
+			sig := f.Kind + ":" + path + ":" + f.Actor
 			if f.Sub != "" {
 				sig += ":" + f.Sub
 			}
